@@ -4,7 +4,7 @@
    generic in the loop body: they assume what the body does in one iteration (pointwise, on every draw
    list) and conclude what the whole loop does. *)
 From Coq Require Import List ZArith NArith Bool Lia ZifyBool.
-From DV Require Import Base.PyList Model.C11_GPTree Model.C11_GenRt.
+From DV Require Import Base.PyList Model.C11_GPTree Model.C11_GenRt Proofs.C11_PySlice.
 Import ListNotations.
 Local Open Scope Z_scope.
 
@@ -365,3 +365,147 @@ Proof.
   destruct ((n =? Z.of_nat (length (a :: l))) && (0 <=? i)); [|reflexivity].
   rewrite nth_error_map. destruct (nth_error (a :: l) (Z.to_nat i)); reflexivity.
 Qed.
+
+(* ------------------------------------------------------------------ spans are inside the list *)
+Lemma span_loop_bounds : forall s t e0 e, span_loop s t e0 = Ok e -> (e0 <= e <= e0 + length s)%nat.
+Proof.
+  induction s as [|n r IH]; intros t e0 e; cbn [span_loop]; destruct (0 <? t); try discriminate;
+    try (intro H; inversion H; subst; cbn [length]; lia).
+  intro H. apply IH in H. cbn [length]. lia.
+Qed.
+
+Lemma search_subtree_bounds l i b e : search_subtree l i = Ok (b, e) -> b = i /\ (i < e <= length l)%nat.
+Proof.
+  unfold search_subtree. destruct (nth_error l i) as [n|] eqn:En; [|discriminate].
+  assert (Hi : (i < length l)%nat) by (apply nth_error_Some; congruence).
+  destruct (span_loop (skipn (S i) l) (zarity n) (S i)) as [e'|] eqn:Es; [|discriminate].
+  apply span_loop_bounds in Es. rewrite skipn_length in Es.
+  intro H; inversion H; subst. lia.
+Qed.
+
+Lemma getslice_obj_nat (l : list node) b e : (b <= e <= length l)%nat ->
+  getslice_obj l (zslice (b, e)) = get_slice l b e.
+Proof.
+  intro H. unfold getslice_obj, getslice, zslice. cbn [fst snd].
+  symmetry. apply (get_slice_is_python l b e H).
+Qed.
+
+Lemma len_nat {A} (l : list A) : len l = Z.of_nat (length l).
+Proof. reflexivity. Qed.
+
+(* ------------------------------------------------------------------ enumerate, index lists *)
+Lemma combine_map_l {A B C} (f : A -> C) : forall (a : list A) (b : list B),
+  combine (map f a) b = map (fun p => (f (fst p), snd p)) (combine a b).
+Proof. induction a as [|x a IH]; intros [|y b]; cbn; try reflexivity. now rewrite IH. Qed.
+
+Lemma filter_map_comm {A B} (f : A -> B) (p : B -> bool) : forall l,
+  filter p (map f l) = map f (filter (fun x => p (f x)) l).
+Proof. induction l as [|x l IH]; cbn; [reflexivity|]. destruct (p (f x)); cbn; now rewrite IH. Qed.
+
+Definition zfst {A} (p : nat * A) : Z * A := (Z.of_nat (fst p), snd p).
+
+Lemma enumerate_from_nat {A} (s : nat) (l : list A) :
+  enumerate_from (Z.of_nat s) l = map zfst (combine (seq s (length l)) l).
+Proof.
+  unfold enumerate_from.
+  assert (G : forall (l : list A) k,
+    combine (map (fun i => Z.of_nat s + Z.of_nat i) (seq k (length l))) l =
+    map zfst (combine (seq (s + k) (length l)) l)).
+  { clear. induction l as [|x l IH]; intro k; [reflexivity|].
+    cbn [length seq map combine]. rewrite IH. unfold zfst at 2. cbn [fst snd].
+    f_equal; [f_equal; lia|]. f_equal. f_equal. f_equal. lia. }
+  rewrite G. now rewrite Nat.add_0_r.
+Qed.
+
+Lemma enumerate_from_0 {A} (l : list A) : enumerate_from 0 l = map zfst (enumerate l).
+Proof. exact (enumerate_from_nat 0 l). Qed.
+
+Lemma enumerate_from_1_tl {A} (l : list A) : enumerate_from 1 (tl l) = map zfst (tl (enumerate l)).
+Proof.
+  destruct l as [|x l]; [reflexivity|]. unfold enumerate. cbn [tl length seq combine].
+  exact (enumerate_from_nat 1 l).
+Qed.
+
+(* [i for i, x in enumerate(l) if p(x)] and the same on a list enumerated from 1 *)
+Lemma idx_filter {A} (p : A -> bool) (P : Z * A -> bool) (F : Z * A -> Z) (e : list (nat * A)) :
+  (forall i x, P (i, x) = p x) -> (forall i x, F (i, x) = i) ->
+  map F (filter P (map zfst e)) = map Z.of_nat (map fst (filter (fun q => p (snd q)) e)).
+Proof.
+  intros HP HF. rewrite filter_map_comm, !map_map.
+  rewrite (filter_ext (fun x => P (zfst x)) (fun q => p (snd q))) by (intros [i x]; apply HP).
+  apply map_ext. intros [i x]. apply HF.
+Qed.
+
+(* [(i, x) for i, x in enumerate(l) if p(x)] *)
+Lemma pair_filter {A} (p : A -> bool) (P : Z * A -> bool) (e : list (nat * A)) :
+  (forall i x, P (i, x) = p x) ->
+  filter P (map zfst e) = map zfst (filter (fun q => p (snd q)) e).
+Proof.
+  intros HP. rewrite filter_map_comm.
+  now rewrite (filter_ext (fun x => P (zfst x)) (fun q => p (snd q))) by (intros [i x]; apply HP).
+Qed.
+
+(* ------------------------------------------------------------------ mutEphemeral: the replacement loop *)
+Section ForEph.
+  Variable body : Z -> list node -> M (list node).
+  Hypothesis Hbody : forall i l ds,
+    body (Z.of_nat i) l ds =
+    match nth_error l i with
+    | None => fail EIndex ds
+    | Some n => bind (d_eph (nname n)) (fun v => lift (set_item l i (set_val n v))) ds
+    end.
+  Lemma for_eph : forall idxs l ds, for_each (map Z.of_nat idxs) body l ds = eph_fold l idxs ds.
+  Proof.
+    induction idxs as [|i r IH]; intros l ds; cbn [map for_each eph_fold]; [reflexivity|].
+    unfold bind at 1. rewrite Hbody. destruct (nth_error l i) as [n|]; [|reflexivity].
+    unfold bind. destruct (d_eph (nname n) ds) as [[v ds1]|]; [|reflexivity].
+    unfold lift. destruct (set_item l i (set_val n v)) as [l'|]; [|reflexivity]. apply IH.
+  Qed.
+End ForEph.
+
+Lemma py_set_mid {A} (pre : list A) x r v :
+  py_set (pre ++ x :: r) (Z.of_nat (length pre)) v = Some (pre ++ v :: r).
+Proof.
+  unfold py_set, PyList.zlen. cbv zeta.
+  replace (Z.of_nat (length pre) <? 0) with false by lia. cbv iota.
+  replace (Z.of_nat (length pre) <? 0) with false by lia. cbn [orb].
+  rewrite app_length. cbn [length].
+  replace (Z.of_nat (length pre + S (length r)) <=? Z.of_nat (length pre)) with false by lia.
+  rewrite Nat2Z.id. f_equal. clear. induction pre as [|y p IH]; cbn; [reflexivity|]. now rewrite IH.
+Qed.
+
+(* ------------------------------------------------------------------ staticLimit: the replacement loop *)
+Section ForLimit.
+  Variable key : list node -> M Z.
+  Variable maxv : Z.
+  Variable keep : list (list node).
+  Variable body : Z * list node -> list (list node) -> M (list (list node)).
+  Hypothesis Hbody : forall i o l ds,
+    body (Z.of_nat i, o) l ds =
+    bind (key o) (fun m =>
+      if maxv <? m then bind (d_choice keep) (fun o' => list_setitem l (Z.of_nat i) o') else ret l) ds.
+
+  Lemma for_limit : forall outs pre ds,
+    for_each (map zfst (combine (seq (length pre) (length outs)) outs)) body (pre ++ outs) ds =
+    bind (limit_fold_k key maxv keep outs) (fun r => ret (pre ++ r)) ds.
+  Proof.
+    induction outs as [|o r IH]; intros pre ds; cbn [length seq combine map for_each limit_fold_k].
+    - unfold bind, ret. reflexivity.
+    - unfold zfst at 1. cbn [fst snd]. unfold bind in IH |- *. rewrite Hbody. unfold bind.
+      destruct (key o ds) as [[m ds1]|]; [|reflexivity].
+      destruct (maxv <? m).
+      + destruct (d_choice keep ds1) as [[o' ds2]|]; [|reflexivity].
+        unfold list_setitem. rewrite py_set_mid. unfold ret at 1.
+        replace (pre ++ o' :: r) with ((pre ++ [o']) ++ r) by (now rewrite <- app_assoc).
+        replace (S (length pre)) with (length (pre ++ [o'])) by (rewrite app_length; cbn; lia).
+        rewrite IH.
+        destruct (limit_fold_k key maxv keep r ds2) as [[r' ds3]|]; [|reflexivity].
+        unfold ret. now rewrite <- app_assoc.
+      + unfold ret at 1 2.
+        replace (pre ++ o :: r) with ((pre ++ [o]) ++ r) by (now rewrite <- app_assoc).
+        replace (S (length pre)) with (length (pre ++ [o])) by (rewrite app_length; cbn; lia).
+        rewrite IH.
+        destruct (limit_fold_k key maxv keep r ds1) as [[r' ds3]|]; [|reflexivity].
+        unfold ret. now rewrite <- app_assoc.
+  Qed.
+End ForLimit.
